@@ -350,3 +350,32 @@ def norm(t):
 
 def same(a, b):
     return norm(strip(a)) == norm(strip(b))
+
+
+def alternatives(body, prov, term, limit=8, _seen=None):
+    """A read of a local with several whole-local definitions (the merge of `match`/`if` arms into one
+    variable) stands for any of the values assigned to it. Returns [(def_block | None, term)]: the term itself
+    when it is not such a merge (def_block None), else one entry per definition, expanded recursively. A local that
+    is also written partially (field store, &mut handed out) is not expanded."""
+    t = strip(term)
+    if t[0] != "local":
+        return [(None, term)]
+    m = t[1]
+    seen = _seen or set()
+    if m in seen or len(seen) >= limit:
+        return [(None, term)]
+    ds = body.defs().get(m, [])
+    if not ds or any(d[2] not in ("assign", "call") for d in ds) or (1 <= m <= body.arg_count):
+        return [(None, term)]
+    out = []
+    for bb, idx, kind, item in ds:
+        if not body.reachable(bb):
+            continue
+        if kind == "assign":
+            v = prov.rvalue(item["rv"])
+        else:
+            c = item["callee"]
+            v = ("call", c.get("rpath") or c.get("path") or "<indirect>", tuple(prov.op(a) for a in item["args"]), bb, c.get("path"), item["dest"].get("ty"))
+        for db, vv in alternatives(body, prov, v, limit, seen | {m}):
+            out.append((bb if db is None else db, vv))
+    return out or [(None, term)]
